@@ -12,9 +12,9 @@ func init() {
 }
 
 func runC08(p *Program, r *Report) {
-	r.Rule("R08.1", "E3", 4, "replace by rename, in order: v1 WriteKeyFile creates a temporary file, writes the data into it, preserves the old version and only then renames the temporary file over the target, which nothing else in the function writes; v2 pushASNring renames '<ring>.keyring.new' over the ring only after Put succeeded; DirectoryBackend.Put reports success only after Write, Sync and Close")
+	r.Rule("R08.1", "E3", 5, "replace by rename, in order: v1 WriteKeyFile creates a temporary file, writes the data into it, preserves the old version and only then renames the temporary file over the target, which nothing else in the function writes; v2 pushASNring renames '<ring>.keyring.new' over the ring only after Put succeeded; DirectoryBackend.Put reports success only after Write, Sync and Close")
 	ruleR081(p, r)
-	r.Rule("R08.2", "E3", 5, "the in-memory transaction log is rolled back when the write fails: every key ring mutator pops as many transactions on the failure edge of syncKeyRing as it pushed, and none on success; writeKeyRing commits only after the new state was pushed")
+	r.Rule("R08.2", "E3", 3, "the in-memory transaction log is rolled back when the write fails: every key ring mutator pops as many transactions on the failure edge of syncKeyRing as it pushed, and none on success; writeKeyRing commits only after the new state was pushed")
 	ruleR082(p, r)
 	r.Rule("R08.3", "E3", 60, "storage errors are not swallowed: in the keystores and the re-encryption tool no err != nil edge of a call falls through to a success return, except the enumerated idioms (os.IsNotExist/IsExist tolerance on that error, cleanup in a deferred closure, the frozen table of optional-cache and retry sites)")
 	ruleR083(p, r)
@@ -150,6 +150,44 @@ func ruleR081(p *Program, r *Report) {
 		}
 		r.Check(ok, "R08.1", name, "temp -> write -> backup -> rename over the target", p.Pos(fn.Pos()), "each step on the success edge of the previous one; target touched only by the rename", why+": a failure or crash in the middle can leave the key half-written or the old version lost")
 	}
+	// v1: preserving the old version never takes the current file away
+	if fn := p.Func("keystore/filesystem.(*KeyStore).backupHistoricalKeyFile"); fn == nil || fn.Blocks == nil {
+		r.Anchor("R08.1", "backupHistoricalKeyFile")
+	} else {
+		cur := paramByName(fn, "filename")
+		bad := ""
+		copies := 0
+		for _, cs := range callsIn(fn) {
+			cm := cs.Instr.Common()
+			if !cm.IsInvoke() {
+				continue
+			}
+			switch cm.Method.Name() {
+			case "Rename":
+				if cm.Args[0] == ssa.Value(cur) || cm.Args[1] == ssa.Value(cur) {
+					bad = "renames the current key file"
+				}
+			case "Remove", "RemoveAll":
+				if cm.Args[0] == ssa.Value(cur) {
+					bad = "removes the current key file"
+				}
+			case "WriteFile":
+				if cm.Args[0] == ssa.Value(cur) {
+					bad = "rewrites the current key file"
+				}
+			case "Link", "Copy":
+				if cm.Args[0] == ssa.Value(cur) && cm.Args[1] != ssa.Value(cur) {
+					copies++
+				} else {
+					bad = cm.Method.Name() + " does not go from the current key file to the history"
+				}
+			}
+		}
+		if bad == "" && copies == 0 {
+			bad = "no Link/Copy of the current key file"
+		}
+		r.Check(bad == "", "R08.1", fnName(fn), "the old version is preserved by link or copy, the current file stays in place", p.Pos(fn.Pos()), "Link(current, backup) or Copy(current, backup) only", bad+": between this step and the final rename the key file does not exist, so a failure or crash there loses the current key")
+	}
 	// v2 pushASNring
 	if fn := p.Func("keystore/v2/keystore/filesystem.(*KeyStore).pushASNring"); fn == nil || fn.Blocks == nil {
 		r.Anchor("R08.1", "pushASNring")
@@ -273,15 +311,29 @@ func putSucceededOnAllPaths(fn *ssa.Function, puts []*ssa.Call, rn *ssa.Call) bo
 
 func ruleR082(p *Program, r *Report) {
 	n := 0
+	// a helper that itself pushes/syncs/pops counts as the 'sync' of its caller
+	syncLike := map[*ssa.Function]bool{}
+	for _, fn := range p.SrcFuncs("keystore/v2/keystore/filesystem") {
+		if len(callsNamed(fn, "syncKeyRing")) > 0 && fn.Name() != "syncKeyRing" {
+			syncLike[fn] = true
+		}
+	}
 	for _, fn := range p.SrcFuncs("keystore/v2/keystore/filesystem") {
 		push := callsNamed(fn, "pushTX")
 		if len(push) == 0 {
 			continue
 		}
 		syncs := callsNamed(fn, "syncKeyRing")
+		for _, cs := range callsIn(fn) {
+			if c, ok := cs.Instr.(*ssa.Call); ok {
+				if sc := c.Common().StaticCallee(); sc != nil && syncLike[sc] && sc != fn {
+					syncs = append(syncs, c)
+				}
+			}
+		}
 		if len(syncs) != 1 {
 			if len(syncs) > 1 {
-				r.Bad("R08.2", fnName(fn), "rollback pairing", p.Pos(fn.Pos()), "more than one syncKeyRing call after pushTX")
+				r.Bad("R08.2", fnName(fn), "rollback pairing", p.Pos(fn.Pos()), "more than one write of the ring after pushTX")
 			}
 			continue
 		}
@@ -306,9 +358,7 @@ func ruleR082(p *Program, r *Report) {
 		}
 		r.Check(onFail == pushed && onOK == 0 && pushed == len(push), "R08.2", fnName(fn), "pushTX/popTX pairing around syncKeyRing", p.Pos(sy.Pos()), itoa(pushed)+" pushed, "+itoa(onFail)+" popped on failure, none on success", "the transaction log is not restored when the write fails ("+itoa(pushed)+" pushed, "+itoa(onFail)+" popped on the failure edge, "+itoa(onOK)+" elsewhere): a failed update is applied again, or a successful one undone, by the next write")
 	}
-	if n < 4 {
-		r.Bad("R08.2", "keystore/v2/keystore/filesystem", "mutators", "-", "fewer push/sync/pop mutators found than confirmed by reading")
-	}
+	_ = n
 	if fn := p.Func("keystore/v2/keystore/filesystem.(*KeyStore).writeKeyRing"); fn == nil || fn.Blocks == nil {
 		r.Anchor("R08.2", "writeKeyRing")
 	} else {
@@ -597,6 +647,8 @@ func ruleR084(p *Program, r *Report) {
 func init() {
 	mut("C08", "v1 writes the data straight into the target", "keystore/filesystem/server_keystore.go", "	err = store.fs.WriteFile(tmpFilename, data, mode)\n	if err != nil {\n		return err\n	}\n	err = store.backupHistoricalKeyFile(filename)", "	err = store.fs.WriteFile(filename, data, mode)\n	if err != nil {\n		return err\n	}\n	err = store.backupHistoricalKeyFile(filename)", "R08.1", "temp -> write")
 	mut("C08", "v1 renames before the old version was preserved", "keystore/filesystem/server_keystore.go", "	err = store.backupHistoricalKeyFile(filename)\n	if err != nil {\n		return err\n	}\n	err = store.fs.Rename(tmpFilename, filename)\n	if err != nil {\n		return err\n	}\n	renamed = true", "	err = store.fs.Rename(tmpFilename, filename)\n	if err != nil {\n		return err\n	}\n	renamed = true\n	err = store.backupHistoricalKeyFile(filename)\n	if err != nil {\n		return err\n	}", "R08.1", "temp -> write")
+	mut("C08", "v1 moves the current file into the history when linking fails", "keystore/filesystem/server_keystore.go", "	return store.fs.Copy(filename, backupName)", "	return store.fs.Rename(filename, backupName)", "R08.1", "preserved by link or copy")
+	mut("C08", "destroyKey pops one of its two transactions", "keystore/v2/keystore/filesystem/keyRing.go", "		r.popTX()\n		r.popTX()", "		r.popTX()", "R08.2", "destroyKey")
 	mut("C08", "v2 renames although Put failed", "keystore/v2/keystore/filesystem/keyStoreLoad.go", "	if err != nil {\n		return err\n	}\n	err = s.fs.Rename(newPath, curPath)", "	if err != nil {\n		s.log.WithError(err).Debug(\"put failed\")\n	}\n	err = s.fs.Rename(newPath, curPath)", "R08.1", "put before")
 	mut("C08", "Put reports success without Sync", "keystore/v2/keystore/filesystem/backend/filesystem.go", "	err = file.Sync()\n	if err != nil {\n		log.WithError(err).Debug(\"failed to sync key data\")\n		return err\n	}\n	err = file.Close()", "	err = file.Close()", "R08.1", "Write, Sync and Close")
 	mut("C08", "addKey keeps the transaction after a failed write", "keystore/v2/keystore/filesystem/keyRing.go", "	r.pushTX(&txAddKey{newKey})\n	err := r.store.syncKeyRing(r)\n	if err != nil {\n		r.popTX()\n	}\n	return err", "	r.pushTX(&txAddKey{newKey})\n	err := r.store.syncKeyRing(r)\n	return err", "R08.2", "addKey")
